@@ -910,6 +910,7 @@ func c09(args []string) int {
 	}
 	sh.Close()
 	c09mx(run)
+	c09bind(run)
 	run.Sum.Exhaustive = false
 	run.Sum.Extra["c09_exhaustive_depth"] = depth
 	run.Sum.Extra["c09_histories"] = len(results)
